@@ -16,6 +16,10 @@ type GetSignaturesForAddressParams struct {
 }
 
 func parseGetSignaturesForAddressParams(raw *json.RawMessage) (*GetSignaturesForAddressParams, error) {
+	if raw == nil {
+		// the request has no "params" member
+		return nil, fmt.Errorf("params are missing")
+	}
 	var params []any
 	if err := fasterJson.Unmarshal(*raw, &params); err != nil {
 		return nil, fmt.Errorf("failed to unmarshal params: %w", err)
